@@ -31,7 +31,7 @@ ASSUMPTIONS = ["rate constant over the interval (the property's premise)", "rela
 REQUIRED = ["C06:split-invariance", "C06:same-instant-zero", "C06:earlier-time-rejected", "C06:query-changes-nothing",
             "C06:twin-query-bit-identical", "C06:positive-never-charged", "C06:negative-charged-at-r+m",
             "C06:margin-earns-nothing", "C06:rebalance-reports-interest"]
-REQUIRED_CATS = ["sub-second-spacing", "tz-aware-changing-offsets"]
+REQUIRED_CATS = ["rate-quoted-two-sided", "sub-second-spacing", "tz-aware-changing-offsets"]
 REQUIRED_HITS = ["Broker.accrued_interest"]
 TECHNIQUE = "runtime monitoring: closed-form reference model (60-digit decimal) and twin runs over generated accrual schedules"
 LEVEL_TEXT = ("Exploration. The real Broker.accrued_interest / Broker.rebalance are driven through thousands of generated accrual "
@@ -40,10 +40,13 @@ LEVEL_NOTE = ("Trusted: Python decimal for the reference power. Mutation audit: 
               "removed, query advancing the accrual clock, margin included in the balance are caught.")
 
 
-def mk(dep, rate, markup, t0):
+def mk(dep, rate, markup, t0, half_spread=0.0):
     rate_c = Rate("R")
     fees = BrokerFees(markup=markup, interest_rate=rate_c)
     ex = gen.new_exchange(t0, fees, rate)
+    if half_spread:
+        # the reference rate itself is quoted two-sided: the rate that applies is its MID
+        ex.process_EventNBBO(EventNBBO(t0, rate_c, rate - half_spread, rate + half_spread))
     return Broker(ex, deposit=dep, fees=fees), ex, fees
 
 
@@ -63,6 +66,11 @@ def case(ctx, i, tier):
     markup = rng.choice([0, 0, rng.uniform(0, 0.1), 0.005])
     if 1 + rate - markup <= 0.01:
         markup = 0
+    half_spread = 0.0
+    if rng.random() < 0.3:
+        half_spread = rng.choice([0.0025, 0.01])
+        rate = ((rate - half_spread) + (rate + half_spread)) / 2     # the mid the book will report
+        ctx.cat("rate-quoted-two-sided")
     mode = rng.choice(["plain", "plain", "negative-by-leverage", "margined", "plain-negdeposit"])
     total = rng.choice([1, 60, 86400, YEAR, rng.randint(1, 40 * YEAR), rng.randint(1, 10 * 86400)])
     k = min(rng.choice([1, 1, 2, 5, 50, 500]), total)
@@ -88,8 +96,8 @@ def case(ctx, i, tier):
     interleaved = False
     if mode == "negative-by-leverage":
         dep = max(mag, 1.0)
-        b, ex, fees = mk(dep, rate, markup, t0)
-        twin, ex2, _ = mk(dep, rate, markup, t0)
+        b, ex, fees = mk(dep, rate, markup, t0, half_spread)
+        twin, ex2, _ = mk(dep, rate, markup, t0, half_spread)
         c = ETF("A")
         lev = rng.uniform(1.2, 4.0)
         for bb, e in ((b, ex), (twin, ex2)):
@@ -97,8 +105,8 @@ def case(ctx, i, tier):
             bb.transact(Trade(t0, c, lev * dep / 100.0, 100.0, 100.0, fees))
     elif mode == "margined":
         dep = max(mag, 10.0)
-        b, ex, fees = mk(dep, rate, markup, t0)
-        twin, ex2, _ = mk(dep, rate, markup, t0)
+        b, ex, fees = mk(dep, rate, markup, t0, half_spread)
+        twin, ex2, _ = mk(dep, rate, markup, t0, half_spread)
         c = gen.UserFuture("F", 5.0, rng.choice([0.05, 0.3, 1.0]))
         q = rng.choice([-1, 1]) * rng.uniform(0.2, 0.9) * dep / (100.0 * 5.0) / c.margin_requirement
         for bb, e in ((b, ex), (twin, ex2)):
@@ -107,8 +115,8 @@ def case(ctx, i, tier):
         ctx.check("C06:setup-margin-posted", b.holdings_margins[c] > 0)
     else:
         dep = mag if mode == "plain" else -mag
-        b, ex, fees = mk(dep, rate, markup, t0)
-        twin, ex2, _ = mk(dep, rate, markup, t0)
+        b, ex, fees = mk(dep, rate, markup, t0, half_spread)
+        twin, ex2, _ = mk(dep, rate, markup, t0, half_spread)
     if aware:
         t0 = t0.replace(tzinfo=timezone.utc)
     cash0 = b.holdings_quantity[Cash()]
